@@ -45,6 +45,14 @@ def run(ctx):
         ctx.anchor_lost("expand", "`if let Some((var, start, end)) = parse_for_range(..)` not found in expand_one_pass")
         return
     var_k, start_k, end_k = binds
+    # nested loops are expanded by the NEXT pass, after the enclosing loop's `{var}` has been substituted ("nested loops
+    # expand as nested substitutions"): a pass that expands an inner loop itself, before substituting, binds an inner
+    # `{i}` that shadows the outer one to the inner values
+    rec = [c for c in F.calls_from(P + "expand_one_pass", nested=True) if (c["inst"] or c["callee"]) in (P + "expand_one_pass", P + "expand_declaration_loops")]
+    if rec:
+        ctx.violation("expand", "no-recursion", "expand_one_pass expands nested loops itself (it calls %s) before the enclosing loop's placeholder is substituted: a nested loop that reuses the variable name is bound to the inner values instead of the outer ones" % (rec[0]["inst"] or rec[0]["callee"]).rsplit("::", 1)[1], site=rec[0]["sp"])
+    else:
+        ctx.ok("expand", "no-recursion", "one pass expands one nesting level; nesting is handled by the fixpoint driver")
     fors = [x for x in H.walk(body) if x.get("k") == "for"]
     outer = None
     for f in fors:
